@@ -106,6 +106,14 @@ def snap(obj: Any) -> Tuple[list, list]:
     return [(p, str(a.dtype), tuple(a.shape), a.tobytes()) for p, a in arrs], list(meta)
 
 
+def snap_values(obj: Any, drop_paths=()) -> Tuple[list, list]:
+    """snapshot for comparing the *values* of two results: wall-clock measurements (any path mentioning 'time') are
+    not values, and arrays listed in ``drop_paths`` are left out"""
+    arrs, meta = snap(obj)
+    keep = lambda p: "time" not in p.lower() and p not in drop_paths  # noqa: E731
+    return [x for x in arrs if keep(x[0])], [m for m in meta if keep(m[0])]
+
+
 def snap_diff(a, b) -> Optional[str]:
     """None if the two snapshots are identical, else a short description of the first difference."""
     aa, am = a
@@ -197,11 +205,17 @@ def check_op(
     inplace: Optional[str] = None,
     result_of: Optional[Callable[[Any], Any]] = None,
     echo: Optional[Dict[str, Callable[[Any], Any]]] = None,
+    again: bool = False,
+    deterministic: bool = True,
 ):
     """operands: name -> object, everything the caller hands to the operation (receiver included under
     the name 'self').  ``inplace``: name of the operand that the operation is documented to modify (it is then
     treated as the *result*: it may change, and must end up independent of the other operands).
     ``result_of``: maps the returned value to the part that is subject to the independence clauses.
+    ``again`` (round 2, state across calls): the operation is called a second time on the same operands (only when
+    the first call left them bit-identical and the operation is not an in-place one).  The second result must not
+    share memory with the first, must not change when the first is overwritten, and - for ``deterministic``
+    operations - must be bit-identical to the first; the remaining clauses are then applied to the second result.
     """
     names = list(operands)
     n_op_arrays = sum(1 for n in names for _, a in arrays_of(operands[n]) if a.size)
@@ -225,6 +239,39 @@ def check_op(
     result = operands[inplace] if inplace is not None else ret
     if result_of is not None and inplace is None:
         result = result_of(ret)
+    mutated = any(k == "mismatch" and d.startswith("operand-mutated:") for k, d, _ in ctx.violations)
+    if again and inplace is None and not mutated:
+        ctx.label("second-call")
+        try:
+            ret2 = call()
+        except Exception as e:  # noqa: BLE001
+            ctx.check(False, "second-call-raises", f"{what}: first call returned, second call on the same operands raised {e!r}")
+            ret2 = None
+        else:
+            result2 = result_of(ret2) if result_of is not None else ret2
+            for n in names:
+                d = snap_diff(before[n], snap(operands[n]))
+                ctx.check(d is None, f"operand-mutated:{n}", f"{what} (second call): {d}")
+            # arrays of a result that are (views of) operand arrays are the business of the clauses 'aliased:<operand>';
+            # the clauses about the pair of results look at the rest
+            via_operand = {rp for n in names for rp, _ in shared_pairs(result2, operands[n])} | {
+                rp for n in names for rp, _ in shared_pairs(result, operands[n])}
+            via_operand = {"" if p == "<array>" else p for p in via_operand}
+            s1, s2 = snap_values(result, via_operand), snap_values(result2, via_operand)
+            if deterministic:
+                d = snap_diff(s1, s2)
+                ctx.check(d is None, "second-call-differs", f"{what}: same operands, second result differs: {d}")
+            pairs = [(a, b) for a, b in shared_pairs(result2, result) if ("" if a == "<array>" else a) not in via_operand]
+            ctx.check(not pairs, "second-result-aliases-first",
+                      f"{what}: second result{pairs[0][0]} shares memory with first result{pairs[0][1]}" if pairs else "")
+            os1 = {n: snap(operands[n]) for n in names}
+            if trash_all(result):
+                d = snap_diff(s2, snap_values(result2, via_operand))
+                ctx.check(d is None, "second-result-changed-by-write-to-first", f"{what}: {d}")
+                for n in names:
+                    d = snap_diff(os1[n], snap(operands[n]))
+                    ctx.check(d is None, f"operand-changed-by-write-to-result:{n}", f"{what} (first result): {d}")
+            ret, result = ret2, result2
     res_arrays = [(p, a) for p, a in arrays_of(result) if a.size]
     # non-trivial: the call returned and there was at least one non-empty operand array to protect (clause 1); the
     # independence clauses (2a-2c) additionally need an array in the result -- labelled, so the share is visible
